@@ -31,14 +31,16 @@ tvars == <<l, bad, stats, memo, nexec, objs>>
 
 Has(r, f) == f \in DOMAIN r
 H(x) == RFromHex(x)
-HV(v) == [i \in 1..Len(v) |-> RFromHex(v[i])]
-HM(m) == [i \in 1..Len(m) |-> HV(m[i])]
+HV(v) == TLCEval([i \in 1..Len(v) |-> RFromHex(v[i])])
+HM(m) == TLCEval([i \in 1..Len(m) |-> HV(m[i])])
 FinV(v) == \A i \in 1..Len(v) : RIsFiniteHex(v[i])
 FinM(m) == \A i \in 1..Len(m) : FinV(m[i])
 
 Tol6 == RPow("10", -6)
 Tol9 == RPow("10", -9)
 Tol3 == RPow("10", -3)
+PhiW == RPow("10", -3)      \* noise-floor factor of the scaled residual in the well-scaled domain (C01, C02)
+PhiA == RPow("10", -9)      \* ... over the accepted range (C18)
 MinDur == RFromHex("0x1.0624dd2f1a9fcp-10")     \* the double 1e-3
 
 (* ------------------------------ domains (s4) -------------------------- *)
@@ -117,15 +119,16 @@ BookCands(ev, pr) ==
          Cand("C01", "book.inputs", o.pts = ev.P /\ o.gdim = ev.dim, info)>>
 
 ResCands(ev, pr, C) ==
-    LET R == AllResiduals(pr, C)
-        w == InW(ev.order, pr.T)
-        a == InA(pr.T)
+    LET R == TLCEval(AllResiduals(pr, C))
+        w == TLCEval(InW(ev.order, pr.T))
+        a == TLCEval(InA(pr.T))
         rat == IF AllPos(pr.T) THEN RShow(Ratio(pr.T)) ELSE "n/a"
         one(r) ==
-            LET info == [order |-> ev.order, dim |-> ev.dim, N |-> NSeg(pr), kind |-> r.kind, i |-> r.i, d |-> r.d,
-                         col |-> r.col, res |-> RShow(r.res), ratio |-> rat]
-            IN (IF w THEN <<Cand(IF r.kind = "cont" THEN "C02" ELSE "C01", "res." \o r.kind, RLe(r.res, Tol6), info)>> ELSE <<>>)
-               \o (IF a THEN <<Cand("C18", "res." \o r.kind, RLe(r.res, Tol3), info)>> ELSE <<>>)
+            LET rw == ResVal(r.res, PhiW)  ra == ResVal(r.res, PhiA)
+                info(x) == [order |-> ev.order, dim |-> ev.dim, N |-> NSeg(pr), kind |-> r.kind, i |-> r.i, d |-> r.d,
+                            col |-> r.col, res |-> RShow(x), ratio |-> rat]
+            IN (IF w THEN <<Cand(IF r.kind = "cont" THEN "C02" ELSE "C01", "res." \o r.kind, RLe(rw, Tol6), info(rw))>> ELSE <<>>)
+               \o (IF a THEN <<Cand("C18", "res." \o r.kind, RLe(ra, Tol3), info(ra))>> ELSE <<>>)
     IN Flat([q \in 1..Len(R) |-> one(R[q])])
 
 \* coefficient-wise agreement with the exact minimiser, in position units (DESIGN s4)
@@ -173,19 +176,20 @@ TrBuild ==
        IN IF ~ok
           THEN /\ bad' = bad \o Devs(<<Cand("C01", "build.failed", FALSE, [order |-> ev.order, dim |-> ev.dim])>>, ev)
                /\ UNCHANGED <<objs, memo>> /\ stats' = Bump(stats, "builds", 1)
-          ELSE LET pr == ProblemOf(ev)
-                   C == HM(ev.out.coef)
-                   Cx == IF WantExact(ev, pr) THEN TLCEval(MinCoeffs(pr)) ELSE <<>>
-                   key == InKey(ev)
+          ELSE LET pr == TLCEval(ProblemOf(ev))
+                   C == TLCEval(HM(ev.out.coef))
+                   pre == IF WantExact(ev, pr) /\ JGrad THEN TLCEval(AdjointPre(pr)) ELSE <<>>
+                   Cx == TLCEval(IF pre # <<>> THEN pre.C ELSE IF WantExact(ev, pr) THEN MinCoeffs(pr) ELSE <<>>)
+                   key == TLCEval(InKey(ev))
                    kc == <<"coef", key>>                 \* without the start time: C14 (shift) and C10
                    ks == <<"state", key, T0Of(ev)>>
                    vs == [cum |-> ev.out.cum, start |-> ev.out.start, end |-> ev.out.end, dur |-> ev.out.dur]
                    info == [order |-> ev.order, dim |-> ev.dim, N |-> NSeg(pr), how |-> ev.how]
-                   cands == BuildCands(ev, pr, C, Cx)
+                   cands == TLCEval(BuildCands(ev, pr, C, Cx))
                             \o <<MemoCand("C10", "memo.coef", kc, ev.out.coef, info),
                                  MemoCand("C10", "memo.state", ks, vs, info)>>
                IN /\ Build(ev.obj, [order |-> ev.order, dim |-> ev.dim, key |-> key, t0 |-> T0Of(ev), pr |-> pr,
-                                     C |-> C, Cx |-> Cx, coefbits |-> ev.out.coef, bp |-> HV(ev.out.cum)],
+                                     C |-> C, Cx |-> Cx, pre |-> pre, coefbits |-> ev.out.coef, bp |-> HV(ev.out.cum)],
                            NSeg(pr), ev.how \in {"ctor_durs", "ctor_pts"})
                   /\ bad' = bad \o Devs(cands, ev)
                   /\ memo' = MemoPut(MemoPut(memo, kc, ev.out.coef), ks, vs)
@@ -198,7 +202,7 @@ TrBuild ==
 TrState ==
     /\ IsEvent("state")
     /\ LET ev == Ev
-           o == objs[ev.obj].data
+           o == TLCEval(objs[ev.obj].data)
            cands == <<Cand("C10", "state.coef", ev.out.coef = o.coefbits, [order |-> o.order, dim |-> o.dim])>>
        IN /\ Query(ev.obj, "state")
           /\ bad' = bad \o Devs(cands, ev)
@@ -210,7 +214,7 @@ TrState ==
 TrKnots ==
     /\ IsEvent("knots")
     /\ LET ev == Ev
-           o == objs[ev.obj].data
+           o == TLCEval(objs[ev.obj].data)
            pr == o.pr
            s == pr.s  N == NSeg(pr)  D == Dim(pr)
            w == InW(o.order, pr.T)
@@ -249,7 +253,7 @@ TrKnots ==
 TrEnergy ==
     /\ IsEvent("energy")
     /\ LET ev == Ev
-           o == objs[ev.obj].data
+           o == TLCEval(objs[ev.obj].data)
            pr == o.pr
            ex == Energy(o.C, pr.s, pr.T)
            ab == EnergyAbs(o.C, pr.s, pr.T)
@@ -272,7 +276,7 @@ TrEnergy ==
 TrEval ==
     /\ IsEvent("eval")
     /\ LET ev == Ev
-           o == objs[ev.obj].data
+           o == TLCEval(objs[ev.obj].data)
            nc == 2 * o.pr.s
            t == H(ev.t)
            want == EvalAt(o.bp, o.C, nc, t, ev.d)
@@ -286,6 +290,94 @@ TrEval ==
           /\ bad' = bad \o Devs(cands, ev)
           /\ memo' = MemoPut(memo, key, ev.out.val)
           /\ stats' = Bump(Bump(stats, "evals", 1), "judgements", Len(cands))
+    /\ UNCHANGED nexec
+    /\ Advance
+
+(* ------------------------------ gradients ---------------------------- *)
+\* |got - want| <= 1e-6 * S + tiny, entry-wise
+GClose(got, want, S) == RLe(RAbs(RSub(got, want)), RAdd(RMul(Tol6, S), Tiny))
+\* compare a logged Gradients structure with an exact adjoint result
+GradCands(prop, code, o, out, g) ==
+    LET pr == o.pr  s == pr.s  N == NSeg(pr)  D == Dim(pr)
+        info(part, i) == [order |-> o.order, dim |-> o.dim, N |-> N, part |-> part, i |-> i]
+        names == <<"v", "a", "j">>
+        shape == Len(out.times) = N /\ Len(out.inner) = N - 1 /\ FinV(out.times) /\ FinM(out.inner)
+    IN IF ~shape THEN <<Cand(prop, code \o ".shape", FALSE, info("shape", 0))>>
+       ELSE [i \in 1..N |-> Cand(prop, code \o ".times", GClose(H(out.times[i]), g.times[i], g.timesS[i]),
+                                  info("times", i) @@ [got |-> RShow(H(out.times[i])), want |-> RShow(g.times[i]), S |-> RShow(g.timesS[i])])]
+            \o [j \in 1..(N - 1) |-> Cand(prop, code \o ".inner",
+                     \A col \in 1..D : GClose(H(out.inner[j][col]), g.points[j + 1][col], g.pointsS[j + 1][col]), info("inner", j))]
+            \o <<Cand(prop, code \o ".start.p", \A col \in 1..D : GClose(H(out.gs.p[col]), g.points[1][col], g.pointsS[1][col]), info("start.p", 0)),
+                 Cand(prop, code \o ".end.p", \A col \in 1..D : GClose(H(out.ge.p[col]), g.points[N + 1][col], g.pointsS[N + 1][col]), info("end.p", 0))>>
+            \o [d \in 1..(s - 1) |-> Cand(prop, code \o ".start." \o names[d],
+                     \A col \in 1..D : GClose(H(out.gs[names[d]][col]), g.bs[d][col], g.bsS[d][col]), info("start." \o names[d], d))]
+            \o [d \in 1..(s - 1) |-> Cand(prop, code \o ".end." \o names[d],
+                     \A col \in 1..D : GClose(H(out.ge[names[d]][col]), g.be[d][col], g.beS[d][col]), info("end." \o names[d], d))]
+
+GradJudged(o) == JGrad /\ o.pre # <<>>
+
+\* propagateGrad(gdC, gdT): exact transpose-Jacobian product (C05); independent of earlier calls (memo, C05/C10)
+TrProp ==
+    /\ IsEvent("prop")
+    /\ LET ev == Ev
+           o == TLCEval(objs[ev.obj].data)
+           key == <<"prop", o.key, ev.gdC, ev.gdT>>
+           info == [order |-> o.order, dim |-> o.dim, N |-> NSeg(o.pr)]
+           okin == Len(ev.gdC) = NUnk(o.pr) /\ Len(ev.gdT) = NSeg(o.pr)
+           cands == (IF GradJudged(o) /\ okin /\ ~Has(ev, "exception")
+                     THEN GradCands("C05", "prop", o, ev.out, TLCEval(AdjointWith(o.pr, o.pre, TLCEval(HM(ev.gdC)), TLCEval(HV(ev.gdT))))) ELSE <<>>)
+                    \o <<MemoCand("C05", "memo.prop", key, ev.out, info)>>
+       IN /\ Query(ev.obj, "prop")
+          /\ bad' = bad \o Devs(cands, ev)
+          /\ memo' = MemoPut(memo, key, ev.out)
+          /\ stats' = Bump(Bump(Bump(stats, "props", 1), "judgements", Len(cands)), IF GradJudged(o) THEN "props_exact" ELSE "props_memo_only", 1)
+    /\ UNCHANGED nexec
+    /\ Advance
+
+\* partial gradients of the energy: closed forms of the published coefficients (C06)
+TrEPartial ==
+    /\ IsEvent("epartial")
+    /\ LET ev == Ev
+           o == TLCEval(objs[ev.obj].data)
+           pr == o.pr  s == pr.s  N == NSeg(pr)  D == Dim(pr)
+           wc == TLCEval(EnergyPartialC(o.C, s, pr.T))
+           wcA == TLCEval(EnergyPartialCAbs(o.C, s, pr.T))
+           wt == TLCEval(EnergyPartialT(o.C, s, pr.T))
+           wtA == TLCEval(EnergyPartialTAbs(o.C, s, pr.T))
+           info(part, i) == [order |-> o.order, dim |-> o.dim, N |-> N, part |-> part, i |-> i]
+           key == <<"epartial", o.key>>
+           shape == Len(ev.out.gdC) = 2 * s * N /\ Len(ev.out.gdT) = N /\ FinM(ev.out.gdC) /\ FinV(ev.out.gdT)
+           cands == (IF ~shape THEN <<Cand("C06", "epartial.shape", FALSE, info("shape", 0))>>
+                     ELSE IF ~AllPos(pr.T) THEN <<>>
+                     ELSE [r \in 1..(2 * s * N) |-> Cand("C06", "epartial.coeffs",
+                              \A col \in 1..D : RLe(RAbs(RSub(H(ev.out.gdC[r][col]), wc[r][col])), RAdd(RMul(Tol9, wcA[r][col]), Tiny)), info("gdC", r))]
+                          \o [i \in 1..N |-> Cand("C06", "epartial.times",
+                              RLe(RAbs(RSub(H(ev.out.gdT[i]), wt[i])), RAdd(RMul(Tol9, wtA[i]), Tiny)), info("gdT", i))])
+                    \o <<MemoCand("C10", "memo.epartial", key, ev.out, info("memo", 0))>>
+       IN /\ Query(ev.obj, "epartial")
+          /\ bad' = bad \o Devs(cands, ev)
+          /\ memo' = MemoPut(memo, key, ev.out)
+          /\ stats' = Bump(Bump(stats, "epartials", 1), "judgements", Len(cands))
+    /\ UNCHANGED nexec
+    /\ Advance
+
+\* analytic total energy gradients (C06); prop_epartial: propagating the object's own partials reproduces them
+TrEGrad ==
+    /\ (IsEvent("egrad") \/ IsEvent("prop_epartial"))
+    /\ LET ev == Ev
+           o == TLCEval(objs[ev.obj].data)
+           pr == o.pr
+           code == IF ev.e = "egrad" THEN "egrad" ELSE "propepartial"
+           key == <<code, o.key>>     \* every access route (struct / reference / parts) must return the same bits
+           info == [order |-> o.order, dim |-> o.dim, N |-> NSeg(pr)]
+           cands == (IF GradJudged(o) /\ ~Has(ev, "exception")
+                     THEN GradCands("C06", code, o, ev.out,
+                                    TLCEval(AdjointWith(pr, o.pre, TLCEval(EnergyPartialC(o.Cx, pr.s, pr.T)), TLCEval(EnergyPartialT(o.Cx, pr.s, pr.T))))) ELSE <<>>)
+                    \o <<MemoCand("C10", "memo." \o code, key, ev.out, info)>>
+       IN /\ Query(ev.obj, IF ev.e = "egrad" THEN "egrad" ELSE "prop")
+          /\ bad' = bad \o Devs(cands, ev)
+          /\ memo' = MemoPut(memo, key, ev.out)
+          /\ stats' = Bump(Bump(Bump(stats, "egrads", 1), "judgements", Len(cands)), IF GradJudged(o) THEN "egrads_exact" ELSE "egrads_memo_only", 1)
     /\ UNCHANGED nexec
     /\ Advance
 
@@ -305,7 +397,34 @@ TrDestroy ==
     /\ UNCHANGED <<bad, memo, nexec>> /\ stats' = Bump(stats, "destroys", 1)
     /\ Advance
 
-Known == {"reset", "build", "state", "knots", "energy", "eval", "copy", "assign", "destroy"}
+\* harness directives (no library call): comparisons between objects of one execution, judged here
+SameCands(ev) ==
+    LET a == objs[ev.a].data  b == objs[ev.b].data
+        pr == a.pr  s == pr.s  N == NSeg(pr)  D == Dim(pr)
+        seg(i, col) ==
+            LET x == SegPoly(a.C, s, i, col)  y == SegPoly(b.C, s, i, col)
+                mag == RMax(RMaxSeq([k \in 1..(2 * s) |-> RAbs(RMul(x[k], RPow(pr.T[i], k - 1)))]), PScale(pr, col))
+                err == RMaxSeq([k \in 1..(2 * s) |-> RAbs(RMul(RSub(x[k], y[k]), RPow(pr.T[i], k - 1)))])
+            IN Cand("C01", "same.coef", RLe(err, RAdd(RMul(Tol6, mag), Tiny)),
+                    [order |-> a.order, dim |-> a.dim, N |-> N, i |-> i, col |-> col, err |-> RShow(err), mag |-> RShow(mag)])
+        big == RMaxSeq([i \in 1..Len(a.bp) |-> RAbs(a.bp[i])])
+    IN IF NSeg(b.pr) # N \/ b.order # a.order \/ b.dim # a.dim
+       THEN <<Cand("C01", "same.shape", FALSE, [order |-> a.order, dim |-> a.dim, N |-> N])>>
+       ELSE (IF InW(a.order, pr.T) THEN [q \in 1..(N * D) |-> LET i == ((q - 1) \div D) + 1 IN seg(i, q - (i - 1) * D)] ELSE <<>>)
+            \o <<Cand("C01", "same.knots",
+                      \A i \in 1..(N + 1) : RLe(RAbs(RSub(a.bp[i], b.bp[i])), RMul(RInt(4 * N), RMul(Eps, RMax(big, Tiny)))),
+                      [order |-> a.order, dim |-> a.dim, N |-> N])>>
+
+TrNote ==
+    /\ IsEvent("note")
+    /\ LET ev == Ev
+           cands == IF Has(ev, "what") /\ ev.what = "same" THEN SameCands(ev) ELSE <<>>
+       IN /\ bad' = bad \o Devs(cands, ev)
+          /\ stats' = Bump(Bump(stats, "notes", 1), "judgements", Len(cands))
+    /\ UNCHANGED <<objs, memo, nexec>>
+    /\ Advance
+
+Known == {"prop", "epartial", "egrad", "prop_epartial", "note", "reset", "build", "state", "knots", "energy", "eval", "copy", "assign", "destroy"}
 TrUnknown ==
     /\ l <= Len(Tr) /\ Tr[l].e \notin Known
     /\ bad' = bad \o <<[prop |-> "INFRA", code |-> "unknown.event", info |-> [e |-> Tr[l].e], line |-> l, exec |-> nexec, obj |-> 0]>>
@@ -313,7 +432,7 @@ TrUnknown ==
     /\ Advance
 
 TraceInit == /\ l = 1 /\ bad = <<>> /\ stats = [lines |-> Len(Tr)] /\ memo = << >> /\ nexec = 0 /\ ObjInit
-TraceNext == TrReset \/ TrBuild \/ TrState \/ TrKnots \/ TrEnergy \/ TrEval \/ TrCopy \/ TrAssign \/ TrDestroy \/ TrUnknown
+TraceNext == TrProp \/ TrEPartial \/ TrEGrad \/ TrNote \/ TrReset \/ TrBuild \/ TrState \/ TrKnots \/ TrEnergy \/ TrEval \/ TrCopy \/ TrAssign \/ TrDestroy \/ TrUnknown
 TraceSpec == TraceInit /\ [][TraceNext]_tvars
 
 \* the design module's invariants are evaluated at every step of the trace
